@@ -84,6 +84,10 @@ fn node(ctx: &mut Ctx, t: &mut Tree, p: &Pos, b: &Board, path: &[Mv], special: b
             }
         }
     }
+    // the deprecated editing API as further ways of reaching a position (one node in sixteen)
+    if fp(p) % 16 == 0 {
+        super::editapi::check_edits(ctx, super::editapi::Mode::Hash, p, b, 2, &|| case(None))?;
+    }
     // transposition bucket
     let key = gen::rep_key(p);
     match t.buckets.get(&key) {
@@ -231,7 +235,7 @@ pub fn run(cfg: &Cfg) -> i32 {
     engine::finish(
         report,
         EvidenceSpec {
-            rule: "cases = complete trees of legal moves (depth 2-5 by branching factor and material, node cap 150k-300k) below curated positions and below generated mid-game positions; children are produced through make_move_new and through make_move into a used board (both must agree; the tree advances through them alternately); every node's incrementally maintained hash is compared with the hash of the same position parsed from its own FEN, from an independent standard FEN and built through BoardBuilder, with null_move().null_move(), and with every other node of the tree that is the same position (bucket key computed by the reference model: placement, side, rights, en-passant state) in get_hash, == and std Hash digest. evaluations = tree nodes. Non-trivial = a position reached by >= 2 different move sequences, or by a path containing castling, en passant, promotion or capture of a rook at home; distinct = position fingerprints.".into(),
+            rule: "cases = complete trees of legal moves (depth 2-5 by branching factor and material, node cap 150k-300k) below curated positions and below generated mid-game positions; children are produced through make_move_new and through make_move into a used board (both must agree; the tree advances through them alternately); every node's incrementally maintained hash is compared with the hash of the same position parsed from its own FEN, from an independent standard FEN and built through BoardBuilder, with null_move().null_move(), with boards produced by the deprecated editing API (set_piece / clear_square / castle-rights mutators, one node in sixteen) against the edited position parsed from FEN, and with every other node of the tree that is the same position (bucket key computed by the reference model: placement, side, rights, en-passant state) in get_hash, == and std Hash digest. evaluations = tree nodes. Non-trivial = a position reached by >= 2 different move sequences, or by a path containing castling, en passant, promotion or capture of a rook at home; distinct = position fingerprints.".into(),
             assumptions: vec!["reference position identity (placement, side, rights, en-passant state = enemy pawn beside the just-pushed pawn)".into()],
             trusted_base: vec!["harness/src/refmodel.rs".into(), "proptest 1.11".into()],
             exhaustive: None,
